@@ -7,30 +7,9 @@
    exactly the cells the model changes are changed -- every load and store checked inside its block, no
    signed overflow (the one bound needed, useq < INT_MAX for lb->useq++, is stated and shown to be sharp). *)
 From Coq Require Import List ZArith NArith Bool Lia.
-From NV Require Import Bytes CLite CLiteProps GenCFuncs CLiteTac UndoDefs.
+From NV Require Import Bytes CLite CLiteProps GenCFuncs CLiteTac TrLbufBase UndoDefs.
 Import ListNotations.
 Local Open Scope Z_scope.
-
-Definition i32 (z : Z) : Prop := -2147483648 <= z <= 2147483647.
-
-(* ------------------------------------------------------------------ a struct in memory *)
-Lemma load_cell m b (blk : block) i v z : nth_error m b = Some blk -> nth_error blk i = Some v -> z = Z.of_nat i ->
-  load m b z = Ok v.
-Proof.
-  intros Hm Hi ->. unfold load. rewrite Hm. destruct (Z.ltb_spec (Z.of_nat i) 0); [lia|]. rewrite Nat2Z.id, Hi. reflexivity.
-Qed.
-Lemma store_cell m b (blk : block) i v z : nth_error m b = Some blk -> (i < length blk)%nat -> z = Z.of_nat i ->
-  store m b z v = Ok (upd m b (upd blk i v)).
-Proof. intros Hm Hi ->. rewrite (store_ok m b blk) by (try assumption; lia). rewrite Nat2Z.id. reflexivity. Qed.
-
-(* struct lbuf (lbuf.c) and struct lopt as cells *)
-Definition LBUF_CELLS : nat := 75.
-Definition LOPT_CELLS : nat := 9.
-Definition L_ln : nat := 64.       Definition L_ln_glob : nat := 65.  Definition L_ln_n : nat := 66.
-Definition L_ln_sz : nat := 67.    Definition L_useq : nat := 68.     Definition L_hist : nat := 69.
-Definition L_hist_sz : nat := 70.  Definition L_hist_n : nat := 71.   Definition L_hist_u : nat := 72.
-Definition L_useq_zero : nat := 73. Definition L_useq_last : nat := 74.
-Definition O_seq : nat := 6.       (* struct lopt: ins 0, del 1, pos 2, n_ins 3, n_del 4, pos_off 5, seq 6, mark 7, mark_off 8 *)
 
 (* block bl of m is a struct lbuf whose bookkeeping fields are those of the model state lb; the 64 mark
    cells, ln, ln_glob, ln_n, ln_sz hold ANYTHING; when the log is not empty, hist points to the start of
@@ -59,7 +38,6 @@ Proof.
   - rewrite nth_overflow by exact L. cbn. unfold i32. lia.
 Qed.
 
-Ltac xfld Hb H := match goal with |- context [load ?m ?b ?z] => rewrite (load_cell m b _ _ _ z Hb H eq_refl) end; xstep.
 
 (* ------------------------------------------------------------------ lbuf_seq *)
 Theorem tr_lbuf_seq m bl blk lb d fuel : lbuf_rep m bl blk lb -> lbuf_ints lb ->
@@ -99,13 +77,6 @@ Proof.
     split; [rewrite mem_upd_other by assumption; exact Rhb|exact Rcells].
 Qed.
 (* the field cells of a struct block after a store into field i *)
-Ltac fld_len := match goal with Hl : length ?b = LBUF_CELLS |- context [length ?b] => rewrite Hl end;
-  unfold LBUF_CELLS, L_ln, L_ln_glob, L_ln_n, L_ln_sz, L_useq, L_hist, L_hist_sz, L_hist_n, L_hist_u, L_useq_zero, L_useq_last; lia.
-Ltac fld_ne := unfold L_ln, L_ln_glob, L_ln_n, L_ln_sz, L_useq, L_hist, L_hist_sz, L_hist_n, L_hist_u, L_useq_zero, L_useq_last; lia.
-Ltac fld_after :=
-  first [ rewrite nth_error_upd_same by fld_len; reflexivity
-        | rewrite nth_error_upd_other by (first [fld_len | fld_ne]); assumption ].
-
 (* ------------------------------------------------------------------ lbuf_modified: lb->useq++; return lbuf_seq(lb) != lb->useq_zero *)
 Theorem tr_lbuf_modified m bl blk lb d fuel : lbuf_rep m bl blk lb -> lbuf_ints lb -> useq lb < 2147483647 ->
   let blk' := upd blk L_useq (VInt (useq lb + 1)) in
